@@ -21,6 +21,9 @@ export function f2Decls() {
     Iface("I1", ObjT([Prop("e", P("boolean"))]), [Ref("O1")]),
     Alias("T1", Tup([P("string"), P("number")])),
     Alias("A1", ArrT(P("string"))),
+    Alias("TR1", Tup([P("string")], P("number"))),
+    Alias("TR2", Tup([P("string"), P("boolean")], P("number"))),
+    Alias("TR0", Tup([], P("number"))),
     Alias("LU", U(L("a"), L("b"), L("c"))),
     Alias("PU", U(P("string"), P("number"), P("null"))),
     Alias("MIX", U(L("a"), L(1), P("boolean"), P("null"))),
@@ -42,6 +45,10 @@ export function f2Types() {
   for (const o of [...objs, Ref("RS"), U(Ref("O1"), Ref("O2"))]) out.push(Keyof(o));
   for (const o of objs) for (const k of keyArgs) out.push(Index(o, k));
   out.push(Index(Ref("RS"), P("string")), Index(Ref("T1"), L(0)), Index(Ref("T1"), L(1)), Index(Ref("T1"), P("number")), Index(Ref("A1"), P("number")));
+  // every literal position around the prefix/rest boundary of tuples with a rest element, unions of positions
+  for (const l of [Ref("TR1"), Ref("TR2"), Ref("TR0"), Tup([P("string"), L(1)], P("null"))])
+    for (const k of [L(0), L(1), L(2), L(3), U(L(0), L(1)), U(L(1), L(2)), U(L(0), L(3)), P("number")]) out.push(Index(l, k));
+  out.push(Index(Ref("T1"), U(L(0), L(1))));
   out.push(Index(Ref("O3"), L("c")), Index(Index(Ref("O3"), L("b")), P("number")));
   out.push(Index(Ref("O1"), Keyof(Ref("O1"))), Index(Ref("O2"), Keyof(Ref("O2"))));
   for (const o of objs) {
